@@ -8,7 +8,10 @@ WT=/tmp/mw-$$; git -C /repo worktree add -q --detach "$WT" HEAD || exit 2
 trap 'git -C /repo worktree remove --force "$WT" 2>/dev/null; rm -rf "$WT"' EXIT
 git -C "$WT" apply "$patch" 2>/dev/null || git -C "$WT" apply --3way "$patch" 2>/dev/null || { echo "PATCH DOES NOT APPLY: $patch"; exit 3; }
 for id in "$@"; do
+  # the check rewrites evidence/<id>.json: a run against a CHANGED tree must never leave its evidence behind
+  cp -f evidence/$id.json /dev/shm/evidence-$id-$$.bak 2>/dev/null
   out=$(VT_SRC=$WT/src timeout 1500 ./check "$id" ${TIER:-quick} 2>&1); rc=$?
+  [ -f /dev/shm/evidence-$id-$$.bak ] && mv -f /dev/shm/evidence-$id-$$.bak evidence/$id.json
   nv=$(echo "$out" | grep -c "^VIOLATION")
   echo "[$id] exit=$rc violations=$nv :: $(echo "$out" | grep -A1 "^VIOLATION" | grep descriptor | head -3 | tr '\n' ' ' | cut -c1-300)"
 done
